@@ -201,7 +201,7 @@ def main():
         f.write("\n")
 
 
-HOOK_COMMITS = ["f54323b", "bfaa749", "1959c79", "eda03ea", "598ff92", "798573f", "2877291"]
+HOOK_COMMITS = ["f54323b", "bfaa749", "1959c79", "eda03ea", "598ff92", "798573f", "2877291", "4ea1cbf"]
 
 if __name__ == "__main__":
     main()
